@@ -225,6 +225,15 @@ inline V make_real_coord(const double *x)
     }
 }
 
+// Only the row-major layer can be built from its extents alone (it then sizes the array
+// itself); the Morton and Hilbert layers offer no such constructor.
+template <class T>
+struct is_strided : std::false_type {
+};
+template <class V, class S>
+struct is_strided<covfie::backend::strided<V, S>> : std::true_type {
+};
+
 // Tr: { using B; static constexpr int index, layout_depth, shape, N, M; static constexpr bool view_writable; }
 template <class Tr>
 struct Core {
@@ -259,6 +268,20 @@ struct Core {
     using LayoutB = typename nth_layer<B, LD>::type;
     using lattice_coord_t = typename LayoutB::contravariant_input_t::vector_t;
 
+    static void fill(F *f, const ModelField &m)
+    {
+        if constexpr (Tr::shape != sim::SHAPE_NONE && !Tr::device) {
+            // a model without values (a lattice too large to enumerate): configuration only
+            if (m.vals.empty())
+                return;
+            auto v = storage_view(*f);
+            for_lattice(m.ext, [&](std::size_t lin, const std::size_t *c) {
+                auto &cell = v.at(make_coord<lattice_coord_t>(c));
+                for (int j = 0; j < Tr::M; ++j)
+                    cell[j] = from_bits<std::decay_t<decltype(cell[0])>>(m.vals[lin * Tr::M + j]);
+            });
+        }
+    }
     static void construct(void *mem, const ModelField &m)
     {
         auto tup = cfg_tuple<B>(m, 0);
@@ -270,13 +293,30 @@ struct Core {
                 std::move(tup)
             );
         }
-        if constexpr (Tr::shape != sim::SHAPE_NONE && !Tr::device) {
-            auto v = storage_view(*f);
-            for_lattice(m.ext, [&](std::size_t lin, const std::size_t *c) {
-                auto &cell = v.at(make_coord<lattice_coord_t>(c));
-                for (int j = 0; j < Tr::M; ++j)
-                    cell[j] = from_bits<std::decay_t<decltype(cell[0])>>(m.vals[lin * Tr::M + j]);
-            });
+        fill(f, m);
+    }
+    // The way fields are usually built: every configuration EXCEPT the array's element count,
+    // which the storage-order layer then derives from its extents by itself.
+    template <class Tup, std::size_t... I>
+    static auto first_of(Tup &&t, std::index_sequence<I...>)
+    {
+        return std::make_tuple(std::move(std::get<I>(t))...);
+    }
+    static void construct_short(void *mem, const ModelField &m)
+    {
+        if constexpr (Tr::shape == sim::SHAPE_LAYOUT && !Tr::device && is_strided<LayoutB>::value) {
+            auto tup = cfg_tuple<B>(m, 0);
+            constexpr std::size_t n = std::tuple_size_v<decltype(tup)>;
+            auto head = first_of(std::move(tup), std::make_index_sequence<n - 1>{});
+            F *f;
+            {
+                Sut s;
+                f = std::apply(
+                    [mem](auto &&...c) { return new (mem) F(covfie::make_parameter_pack(std::move(c)...)); },
+                    std::move(head)
+                );
+            }
+            fill(f, m);
         }
     }
     static void default_construct(void *mem)
@@ -401,6 +441,8 @@ struct Core {
         o.obj_size = sizeof(F);
         o.obj_align = alignof(F);
         o.construct = &construct;
+        if constexpr (Tr::shape == sim::SHAPE_LAYOUT && !Tr::device && is_strided<LayoutB>::value)
+            o.construct_short = &construct_short;
         if constexpr (std::is_default_constructible_v<F> && !Tr::device)
             o.default_construct = &default_construct;
         o.destroy = &destroy;
